@@ -243,6 +243,8 @@ structure Def where
   serialization : Option (List String)
   /-- `constants => {name => value}`: constants whose type is inferred from the value -/
   constants : List (String × Val) := []
+  /-- `type_parameters => {name => Type}` -/
+  params : List (String × Ty) := []
   deriving Repr, Inhabited
 
 /-- one level of a resolved type -/
@@ -252,6 +254,8 @@ structure Level where
   equality : Option (List String)
   includeType : Bool
   serialization : Option (List String)
+  /-- the type parameters the level declares (each held as `Optional[T]`) -/
+  params : List (String × Ty) := []
   deriving DecidableEq, Repr, Inhabited
 
 /-- a resolved type: itself, then its ancestors -/
@@ -388,9 +392,19 @@ def constDecl (parent : OType) (c : String × Val) : AttrDecl :=
 /-- the attribute specifications in the order InitFromHash processes them: `attributes`, then `constants` -/
 def Def.decls (d : Def) (parent : OType) : List AttrDecl := d.attrs ++ d.constants.map (constDecl parent)
 
-/-- objectType.InitFromHash: the definition numbered `env.length` against the earlier definitions `env` -/
+/-- typeParameters(true): the parent's first (a name is never declared twice along a chain: `define`) -/
+def typeParams : OType → List (String × Ty)
+  | [] => []
+  | l :: p => typeParams p ++ l.params
+
+def isParameterized (t : OType) : Bool := !(typeParams t).isEmpty
+
+/-- objectType.InitFromHash: the definition numbered `env.length` against the earlier definitions `env`.  The
+    `type_parameters` loop comes first: a type parameter cannot say `override => true` (TypeTypeParameter has no such
+    member), so re-declaring an inherited one is always OVERRIDE_IS_MISSING. -/
 def define (env : List OType) (d : Def) : Except Code OType :=
   let parent : OType := parentOf env d
+  if d.params.any (fun q => (typeParams parent).any (fun r => r.1 == q.1)) then .error .overrideIsMissing else
   if d.constants.any (fun c => d.attrs.any (fun a => a.name == c.1)) then .error .bothConstantAndAttribute else
   match defineAttrs parent (d.decls parent) with
   | .error c => .error c
@@ -402,7 +416,7 @@ def define (env : List OType) (d : Def) : Except Code OType :=
       | .error c => .error c
       | .ok () =>
         .ok ({ id := env.length, attrs := attrs, equality := d.equality.toList?,
-               includeType := d.includeType.getD true, serialization := d.serialization } :: parent)
+               includeType := d.includeType.getD true, serialization := d.serialization, params := d.params } :: parent)
 
 /-- the definitions of one loader, accepted one after the other (the driver's `runDefs` prints the same recursion) -/
 def defineAll : List OType → List Def → Except Code (List OType)
@@ -573,7 +587,7 @@ def tyEqDeep : OType → OType → Bool
       l.attrs.all (fun a => match l'.attrs.find? (fun b => b.name == a.name) with
         | some b => attrEq a b
         | none => false)) &&
-    l.equality == l'.equality && l.serialization == l'.serialization
+    l.equality == l'.equality && l.serialization == l'.serialization && l.params == l'.params
   | _, _ => false
 
 def tyEq (t o : OType) : Bool := t == o || tyEqDeep t o
@@ -624,13 +638,17 @@ def crossCmp (attrs attrs' : List Attr) (pos' : List Nat) (vs vs' : List Val) (i
 /-- attributeSlice.Equals (after the fix "equality_include_type => false was ignored").  Equal types: the receiver's layout
     is used for both operands.  Different types: equal only when both say `equality_include_type => false`, both compare
     the same number of attributes, and every attribute the receiver compares is compared by the other type too and has an
-    equal value there. -/
-def equals (o o' : Obj) : Except Code Bool :=
+    equal value there.  `sameType` = `o.typ.Equals(ov.typ, g)` (for instances of a parameterized type the types are
+    objectTypeExtensions: Model/ObjectParams). -/
+def equalsWith (sameType : Bool) (o o' : Obj) : Except Code Bool :=
   let attrs := posAttrs o.typ
-  if tyEq o.typ o'.typ then
+  if sameType then
     allOk (fun i => cmpValues (valueAt attrs o.values i) (valueAt attrs o'.values i)) (eqPositions o.typ)
   else if includesType o.typ || includesType o'.typ then .ok false
   else if (eqPositions o.typ).length != (eqPositions o'.typ).length then .ok false
   else allOk (crossCmp attrs (posAttrs o'.typ) (eqPositions o'.typ) o.values o'.values) (eqPositions o.typ)
+
+/-- `Equals` of two instances of types without type parameters: "the types are Equal" is `objectType.Equals` -/
+def equals (o o' : Obj) : Except Code Bool := equalsWith (tyEq o.typ o'.typ) o o'
 
 end Pcore.Object
